@@ -51,6 +51,9 @@ def run(op, n):
     if op == "create2":
         cmd_create.main(os.path.join(W, "d2.yaml"), "AUTO", out + ".suit")
         return [b64(out + ".suit")]
+    if op in ("create3", "create3perm", "create3rel"):
+        cmd_create.main(os.path.join(W, {"create3": "d3.json", "create3perm": "d3p.json", "create3rel": "d3rel.json"}[op]), "AUTO", out + ".suit")
+        return [b64(out + ".suit")]
     if op == "parse":
         cmd_parse.main(os.path.join(W, "env.suit"), out + ".json", "json", False)
         return [b64(out + ".json")]
@@ -109,6 +112,7 @@ n = 0
 for si, sched in enumerate(job["schedules"]):
     reset()
     ver = 1
+    cwd = 1
     for i, op in enumerate(sched):
         n += 1
         try:
@@ -118,7 +122,9 @@ for si, sched in enumerate(job["schedules"]):
             outs, err = [], repr(e)[:200]
         if op == "touch_fw":
             ver = 2
-        print(json.dumps({"s": si, "i": i, "op": op, "fwver": ver, "outs": outs, "err": err}), flush=True)
+        if op == "chdir":
+            cwd = 2
+        print(json.dumps({"s": si, "i": i, "op": op, "fwver": ver, "cwd": cwd, "outs": outs, "err": err}), flush=True)
         for f in os.listdir(W):
             if f.startswith("out_"):
                 p = os.path.join(W, f)
